@@ -374,8 +374,9 @@ fn run(case: &Case, out: &mut Out) {
                 }
                 out.obs(&obs);
             }
-            "blackbox" => {
-                let exe = std::env::current_exe().ok().and_then(|p| p.parent().map(|d| d.join("c14bb")));
+            "blackbox" | "blackbox2" => {
+                let bin = if op.name == "blackbox2" { "c14bb2" } else { "c14bb" };
+                let exe = std::env::current_exe().ok().and_then(|p| p.parent().map(|d| d.join(bin)));
                 if let Some(exe) = exe {
                     let args: Vec<String> = a.iter().map(|t| t.to_string()).collect();
                     if let Ok(o) = std::process::Command::new(exe).args(&args).output() {
